@@ -95,14 +95,25 @@ class GarbageCollector:
                 f"Nothing was deleted."
             )
 
-        # 1. Refresh metadata to get latest view
+        # 1. Load in-flight protection markers FIRST, then the metadata. A
+        # transaction removes its markers only after its commit point, so in
+        # this order every file it wrote is covered by at least one of the two
+        # reads: still marked (not yet committed when the markers were read),
+        # or already reachable in the metadata read afterwards. Reading the
+        # metadata first left a window - metadata read, transaction commits
+        # and clears its markers, markers read - in which a data file older
+        # than the grace period was neither reachable nor protected, and the
+        # collector deleted a file a committed snapshot references.
+        protected_files = self._load_inflight_protection(inflight_timeout_ms)
+
+        # 2. Refresh metadata to get latest view
         metadata = self.metadata_manager.refresh()
         if not metadata:
             return stats
 
         logger.info(f"Starting garbage collection for {self.table_path}")
 
-        # 2. Identify all reachable files. ANY failure here aborts the whole
+        # 3. Identify all reachable files. ANY failure here aborts the whole
         # collection: deleting based on incomplete reachability deletes live data.
         reachable_data_files: Set[str] = set()
         reachable_manifests: Set[str] = set()
@@ -151,8 +162,6 @@ class GarbageCollector:
         logger.info(f"Found reachable: {len(reachable_manifest_lists)} manifest lists, "
                     f"{len(reachable_manifests)} manifests, {len(reachable_data_files)} data files")
 
-        # 3. Load in-flight protection markers (and sweep abandoned ones)
-        protected_files = self._load_inflight_protection(inflight_timeout_ms)
         if protected_files:
             logger.info(f"Protecting {len(protected_files)} in-flight files from GC")
 
